@@ -343,6 +343,39 @@ impl<'a, 'b> Renderer<'a, 'b> {
         self.in_generic_def = if self.def_generic[i].is_some() { Some(i) } else { None };
         let params = if self.def_generic[i].is_some() { "<T>" } else { "" };
         let doc = self.doc();
+        // another named object type whose properties are all among this one's: `interface J extends I { the rest }`
+        let mut extends_named: Option<(usize, Vec<Prop>)> = None;
+        if let D::Object { props, index: None } = &body {
+            if self.def_generic[i].is_none() && self.cfg.has(Feat::Interface) {
+                for (j, (_, other)) in self.env.defs.iter().enumerate() {
+                    if j == i {
+                        continue;
+                    }
+                    if let D::Object { props: op, index: None } = other {
+                        if !op.is_empty() && op.len() < props.len() && op.iter().all(|q| props.contains(q)) && self.s.chance(2, 3) {
+                            let rest: Vec<Prop> = props.iter().filter(|p| !op.contains(p)).cloned().collect();
+                            extends_named = Some((j, rest));
+                            break;
+                        }
+                    }
+                }
+            }
+        }
+        if let Some((j, rest)) = extends_named {
+            self.ensure_def(j);
+            if self.def_generic[j].is_none() {
+                self.mark("interface_extends_named_type");
+                // (which definition extends which: when the base is still being resolved, the compiler keeps the
+                // declaration as the intersection `Base & { rest }` instead of one flattened object, see extends_as_intersections)
+                self.mark(&format!("extends_named:{}:{}", i, j));
+                let base = self.def_names[j].clone();
+                let members = self.members_at(&rest, &[]);
+                self.in_generic_def = prev;
+                self.engine_operand = prev_operand;
+                self.decls.push(format!("{}interface {} extends {} {{ {} }}", doc, name, base, members));
+                return;
+            }
+        }
         let decl = match &body {
             D::Object { props, index: None } if self.cfg.has(Feat::Interface) && self.s.chance(1, 2) => {
                 self.mark("interface");
@@ -1530,4 +1563,27 @@ pub fn render_program(env: &Env, roots: &[(String, D)], cfg: RenderCfg, s: &mut 
     }
     out.push_str("}>();\n");
     (out, rendered)
+}
+
+/// The environment in which every definition that was written `interface J extends I { rest }` (recorded by the renderer
+/// as `extends_named:<J>:<I>`) is the intersection `I & { rest }`: what the compiler makes of such a declaration when it
+/// cannot flatten it (the base is still being resolved).  Only used to decide whether the listed strict-mode finding about
+/// unmerged intersections explains a mismatch; the oracle is always the plain environment.
+pub fn extends_as_intersections(env: &Env, used: &BTreeMap<String, u32>) -> Option<Env> {
+    let mut out = env.clone();
+    let mut any = false;
+    for k in used.keys() {
+        if let Some(rest) = k.strip_prefix("extends_named:") {
+            let mut it = rest.split(':');
+            let (j, i) = (it.next().and_then(|x| x.parse::<usize>().ok()), it.next().and_then(|x| x.parse::<usize>().ok()));
+            if let (Some(j), Some(i)) = (j, i) {
+                if let (Some((_, D::Object { props: pj, index: None })), Some((_, D::Object { props: pi, index: None }))) = (env.defs.get(j), env.defs.get(i)) {
+                    let own: Vec<Prop> = pj.iter().filter(|p| !pi.contains(p)).cloned().collect();
+                    out.defs[j].1 = D::Inter(vec![D::Ref(i), D::Object { props: own, index: None }]);
+                    any = true;
+                }
+            }
+        }
+    }
+    if any { Some(out) } else { None }
 }
